@@ -72,7 +72,7 @@ theorem toCrlf_pairLines (ps : List (Bytes × Bytes)) (h : ∀ kv ∈ ps, keyOk 
     obtain ⟨hk, hv⟩ := h kv (by simp)
     simp only [keyOk, valOk, Bool.and_eq_true] at hk hv
     have hk1 : ∀ b ∈ kv.1, b ≠ LF := fun b hb => (noCrLf_mem _ hk.1.1.2 b hb).2
-    have hv1 : ∀ b ∈ kv.2, b ≠ LF := fun b hb => (noCrLf_mem _ hv.1.1 b hb).2
+    have hv1 : ∀ b ∈ kv.2, b ≠ LF := fun b hb => (noCrLf_mem _ hv.1 b hb).2
     have := ih (fun x hx => h x (by simp [hx]))
     simp only [pairLines, List.flatMap_cons] at this ⊢
     rw [toCrlf_append, this, toCrlf_append, toCrlf_noLf _ hk1]
